@@ -152,8 +152,8 @@ def _cases() -> List[dict]:
 
 def plan(tier: str) -> dict:
     return {
-        "runs": 6000 if tier == "quick" else 300000,
-        "budget": 90 if tier == "quick" else 900,
+        "runs": 20000 if tier == "quick" else 300000,
+        "budget": 150 if tier == "quick" else 900,
         "cases": _cases(),
         "chunk": 20,
         "rule": "WSGI applications of twelve shapes (list, eager and lazy generators, iterators with close(), raising "
